@@ -65,6 +65,7 @@ type run struct {
 	extOf    map[int]int    // denom -> id of the external contract deployed for it (symbol = the denom's symbol)
 	mdKind   map[int]string // denom -> who wrote its bank metadata ("coin" / "erc")
 	dead     map[int]bool
+	seenIdx  map[string]bool
 }
 
 func si(n int) sdkmath.Int { return sdkmath.NewInt(int64(n)) }
@@ -272,8 +273,19 @@ func (r *run) ctID(a common.Address) int {
 }
 
 // dumpIdx reads the raw erc20 store and the bank metadata; also evaluates I_index on the real state.
-func (r *run) dumpIdx(op string) string {
+func (r *run) dumpIdx(op string) string { return r.dumpIdxM(op, true) }
+
+// dumpIdxM: `monitor` = evaluate I_index (off for the snapshot taken before an op: same state as after the previous op)
+func (r *run) dumpIdxM(op string, monitor bool) string {
 	ctx := r.ctx()
+	violate := func(d string) {
+		// a broken index stays broken: report each kind of break once per sequence, at the op that caused it
+		cls := strings.SplitN(d, " after ", 2)[0]
+		if monitor && !r.seenIdx[cls] {
+			r.seenIdx[cls] = true
+			r.out.Violate(d)
+		}
+	}
 	key := r.w.S.App.GetKey(erc20types.StoreKey)
 	pairs := map[string]pairRec{}
 	var ps, ds, es, as, ms []string
@@ -290,7 +302,7 @@ func (r *run) dumpIdx(op string) string {
 		}
 		pairs[id] = rec
 		if !bytes.Equal(p.GetID(), []byte(id)) {
-			r.out.Violate("index: pair stored under a key that is not its id after " + op)
+			violate("index: pair stored under a key that is not its id after " + op)
 		}
 	}
 	var recs []pairRec
@@ -318,7 +330,7 @@ func (r *run) dumpIdx(op string) string {
 		byDenom[d] = string(kv[1])
 		dl = append(dl, kv2{denomID(d), fmt.Sprintf("D%d>%s", denomID(d), idStr(kv[1]))})
 		if p, ok := pairs[string(kv[1])]; !ok || p.denom != d {
-			r.out.Violate("index: denom index entry without a matching pair after " + op)
+			violate("index: denom index entry without a matching pair after " + op)
 		}
 	}
 	byErc := map[string]string{}
@@ -327,12 +339,12 @@ func (r *run) dumpIdx(op string) string {
 		byErc[a.Hex()] = string(kv[1])
 		el = append(el, kv2{r.ctID(a), fmt.Sprintf("E%d>%s", r.ctID(a), idStr(kv[1]))})
 		if p, ok := pairs[string(kv[1])]; !ok || p.contract != a {
-			r.out.Violate("index: contract index entry without a matching pair after " + op)
+			violate("index: contract index entry without a matching pair after " + op)
 		}
 	}
 	for _, p := range pairs {
 		if byDenom[p.denom] != p.id || byErc[p.contract.Hex()] != p.id {
-			r.out.Violate("index: pair not reachable through both the denom and the contract index after " + op)
+			violate("index: pair not reachable through both the denom and the contract index after " + op)
 		}
 	}
 	aliasIdx := map[string]string{}
@@ -341,7 +353,7 @@ func (r *run) dumpIdx(op string) string {
 		aliasIdx[a] = string(kv[1])
 		al = append(al, kv2{denomID(a), fmt.Sprintf("A%d>%d", denomID(a), denomID(string(kv[1])))})
 		if _, reg := byDenom[a]; reg {
-			r.out.Violate("index: a denomination is both a registered base denomination and an alias after " + op)
+			violate("index: a denomination is both a registered base denomination and an alias after " + op)
 		}
 	}
 	// bank metadata of every denom the model tracks
@@ -378,13 +390,13 @@ func (r *run) dumpIdx(op string) string {
 			}
 		}
 		if _, reg := byDenom[d]; !reg || !found {
-			r.out.Violate("index: alias index entry that the bank metadata of a registered denom does not list (stale alias) after " + op)
+			violate("index: alias index entry that the bank metadata of a registered denom does not list (stale alias) after " + op)
 		}
 	}
 	for d := range byDenom {
 		for _, a := range mdAliases[d] {
 			if aliasIdx[a] != d {
-				r.out.Violate("index: metadata alias of a registered denom missing from the alias index (or indexed under another denom) after " + op)
+				violate("index: metadata alias of a registered denom missing from the alias index (or indexed under another denom) after " + op)
 			}
 		}
 	}
@@ -520,7 +532,7 @@ func (r *run) op(line string, f func() error, o opts) string {
 	var preIdx string
 	if o.check != nil {
 		pre, _ = r.snapshot()
-		preIdx = r.dumpIdx("(before) " + line)
+		preIdx = r.dumpIdxM(line, false)
 	}
 	err := f()
 	res := errKind(err)
@@ -936,7 +948,7 @@ func TestC08(t *testing.T) {
 		s := hx.NewSuite(t, 1)
 		w := &bx.World{S: s, Height: s.Ctx.BlockHeight()}
 		r := &run{w: w, out: out, rng: rng, gov: authtypes.NewModuleAddress(govtypes.ModuleName).String(), contract: map[int]common.Address{}, ctOf: map[string]int{},
-			nextCt: 10, last: map[string]string{}, extOf: map[int]int{}, mdKind: map[int]string{}, dead: map[int]bool{}}
+			nextCt: 10, last: map[string]string{}, extOf: map[int]int{}, mdKind: map[int]string{}, dead: map[int]bool{}, seenIdx: map[string]bool{}}
 		for i := 0; i < 3; i++ {
 			u := helpers.NewSigner(helpers.NewEthPrivKey())
 			s.MintToken(u.AccAddress(), sdk.NewCoin(fxtypes.DefaultDenom, si(1000)))
